@@ -321,7 +321,7 @@ func check(c Case, st *rig.Stats) error {
 }
 
 var stats = rig.NewStats("C08",
-	"rapid draws a handler script (0-8 actions: header set/add/del, WriteHeader(code), Write(n) with n from {0,1,5,100,4096}) registered for GET and served via GET and via HEAD on recording writers (the requests enter through the router itself, or through a Group the router was created in by Group.New or added to by Group.Add), and a history of 0-14 steps on three patterns (add GET / other methods, Remove incl. HEAD, OPTIONS, '' and unknown names, remove all, attempts to register HEAD / OPTIONS / TRACE-with-trace / lower-case / unknown names at a drawn position among valid ones). Oracle A: same handler run exactly once, same status, zero body bytes and zero Write calls reach the client for HEAD, final headers equal apart from Content-Length, headers as sent equal when WriteHeader precedes the body, Content-Length equals the bytes written when no WriteHeader is called. Oracle B after every step: HEAD runs GET's handler iff GET is registered (405 on a live route, 404 otherwise), OPTIONS is answered for every live pattern, reserved/unknown registrations panic with an error, Routes() equals the model. Non-trivial: script with >=2 writes, a zero-length write or a header mutation after a write; or GET removed and re-added; distinct by hash of the case",
+	"rapid draws a handler script (0-8 actions: header set/add/del, WriteHeader(code), Write(n) with n from {0,1,5,100,4096}) registered for GET and served via GET and via HEAD on recording writers (the requests enter through the router itself, or through a Group the router was created in by Group.New or added to by Group.Add), and a history of 0-14 steps on three patterns (add GET / other methods, Remove incl. HEAD, OPTIONS, '' and unknown names, remove all, attempts to register HEAD / OPTIONS / TRACE-with-trace / lower-case / unknown names at a drawn position among valid ones). Oracle A: same handler run exactly once, same status, zero body bytes and zero Write calls reach the client for HEAD, final headers equal apart from Content-Length, headers as sent equal when WriteHeader precedes the body, Content-Length equals the bytes written when no WriteHeader is called. Oracle B after every step: HEAD runs GET's handler iff GET is registered (405 on a live route, 404 otherwise), OPTIONS is answered for every live pattern, reserved/unknown registrations panic with an error, Routes() equals the model. Non-trivial: script with >=2 writes, a zero-length write or a header mutation after a write; or GET removed and re-added; distinct by hash of the case. Later additions to the generated domain: Removal lists also hold lower-case, mixed-case, padded and long-s / dotless-i spellings of HEAD and OPTIONS (ignored by contract).",
 	"the script never touches Content-Length itself",
 	"headers set after the first body write are compared on the final map only (net/http would already have sent the header for GET)")
 
